@@ -53,7 +53,14 @@ func (vc *FuncVC) execBlock(b *ssa.BasicBlock) {
 		case *ssa.Store:
 			vc.execStore(st, reach, ins)
 		case *ssa.Convert:
-			vc.vals[ins] = vc.convert(vc.val(ins.X), ins.X.Type(), ins.Type())
+			v := vc.convert(vc.val(ins.X), ins.X.Type(), ins.Type())
+			// []byte("constant"): strings are opaque, but the length of a constant's byte slice is known
+			if c, ok := ins.X.(*ssa.Const); ok && c.Value != nil && c.Value.Kind() == constant.String && v.Kind == vSlice && len(v.Elems) >= 2 {
+				if b, isB := ins.Type().Underlying().(*types.Slice).Elem().Underlying().(*types.Basic); isB && b.Kind() == types.Uint8 {
+					vc.assume(Eq(v.Elems[1].T, IntLit(int64(len(constant.StringVal(c.Value))))))
+				}
+			}
+			vc.vals[ins] = v
 		case *ssa.ChangeType:
 			v := *vc.val(ins.X)
 			v.GoType = ins.Type()
@@ -61,6 +68,9 @@ func (vc *FuncVC) execBlock(b *ssa.BasicBlock) {
 		case *ssa.ChangeInterface:
 			vc.vals[ins] = vc.val(ins.X)
 		case *ssa.MakeInterface:
+			if _, basic := ins.X.Type().Underlying().(*types.Basic); !basic {
+				vc.bigWrites++ // a pointer or aggregate escapes into an interface
+			}
 			c := vc.fresh("iface", SInt)
 			vc.assume(Ne(c, IntLit(0)))
 			vc.vals[ins] = &Val{T: c, GoType: ins.Type()}
@@ -98,7 +108,16 @@ func (vc *FuncVC) execBlock(b *ssa.BasicBlock) {
 			st.cnt = vc.define("cnt", Add(st.cnt, Add(Mul(IntLit(es), vc.scalar(ins.Cap)), IntLit(1))))
 			vc.vals[ins] = &Val{Kind: vSlice, Elems: []*Val{{T: p}, {T: ln}, {T: vc.scalar(ins.Cap)}}, GoType: ins.Type()}
 			vc.note("make([]T) contents not zero-initialised in the model at %s", vc.pos(ins.Pos()))
-		case *ssa.TypeAssert, *ssa.MakeMap, *ssa.MapUpdate, *ssa.Lookup, *ssa.Range, *ssa.Next,
+		case *ssa.TypeAssert:
+			// dynamic types are not modelled. v, ok := x.(T): any value of T and any ok (an over-approximation of both
+			// outcomes). x.(T) without ok panics on a mismatch, which cannot be excluded: an obligation that only an
+			// unreachable assertion discharges.
+			if !ins.CommaOk {
+				vc.oblige("S", fmt.Sprintf("type-assert#%d", vc.ord("type-assert")), reach, TFalse, vc.propTags("C04"), ins.Pos(), "x.(T) without comma-ok panics when the dynamic type differs (dynamic types are not modelled)")
+			}
+			vc.note("type assertion modelled as unconstrained (any value of the asserted type, any ok) at %s", vc.pos(ins.Pos()))
+			vc.vals[ins] = vc.freshVal("tassert", ins.Type())
+		case *ssa.MakeMap, *ssa.MapUpdate, *ssa.Lookup, *ssa.Range, *ssa.Next,
 			*ssa.MakeClosure, *ssa.Defer, *ssa.Go, *ssa.Select, *ssa.Send, *ssa.RunDefers, *ssa.MakeChan, *ssa.SliceToArrayPointer, *ssa.MultiConvert:
 			vc.unsupported("%T at %s", ins, vc.pos(ins.Pos()))
 			if v, ok := ins.(ssa.Value); ok {
@@ -130,6 +149,10 @@ func (vc *FuncVC) execAlloc(st *State, ins *ssa.Alloc) {
 	if _, isSlice := t.Underlying().(*types.Slice); isSlice {
 		vc.unsupported("alloc of slice variable at %s", vc.pos(ins.Pos()))
 	}
+	// zeroing fresh memory is not a write through a shared BigInt representation (see settleBigCopies)
+	wasCopy := vc.inBigCopy
+	vc.inBigCopy = true
+	defer func() { vc.inBigCopy = wasCopy }()
 	for _, lf := range vc.L.leaves(t, 0, "") {
 		var z Term
 		switch lf.Sort {
@@ -324,7 +347,16 @@ func (vc *FuncVC) execSlice(st *State, reach Term, ins *ssa.Slice) {
 		es := vc.L.sizeOf(xt.Elem())
 		vc.vals[ins] = &Val{Kind: vSlice, Elems: []*Val{{T: Add(v.Elems[0].T, Mul(IntLit(es), lo))}, {T: Sub(hi, lo)}, {T: capT}}, GoType: ins.Type()}
 	default:
-		// strings: lengths are not modelled, no bounds obligation (listed as not covered)
+		// strings: lengths are not modelled, no bounds obligation (listed as not covered) - except for a constant
+		// string, whose length is known
+		if c, ok := ins.X.(*ssa.Const); ok && c.Value != nil && c.Value.Kind() == constant.String {
+			n := IntLit(int64(len(constant.StringVal(c.Value))))
+			hi = n
+			if ins.High != nil {
+				hi = vc.scalar(ins.High)
+			}
+			bounds(hi, n)
+		}
 		vc.vals[ins] = vc.freshVal("strslice", ins.Type())
 	}
 }
